@@ -264,6 +264,7 @@ func init() {
 			{Name: "random", TShards: 4, Run: c19Random},
 			{Name: "deep", Run: c19Deep},
 			{Name: "readers", Race: true, QShards: 2, TShards: 4, Run: c19Readers},
+			{Name: "wide", TShards: 4, Run: c19Wide},
 		},
 	})
 }
@@ -870,4 +871,39 @@ func streamOver(name string, rd io.Reader) rawIter {
 		return raw2(newick.Reader(rd), treeKey)
 	}
 	panic("streamOver: unknown iterator " + name)
+}
+
+// c19Wide: nodes with very many children — a child cursor kept in a narrow
+// integer, or a child list handled in blocks, goes wrong exactly at 2^8 / 2^16
+// children, which random trees with fan-out up to 20 never have.
+func c19Wide(c *Ctx) {
+	fans := []int{255, 256, 257, 1000, 65535, 65536, 65537, 70000}
+	if c.Thorough {
+		fans = append(fans, 127, 128, 129, 4095, 4096, 4097, 32767, 32768, 32769, 131071, 131072, 131073, 1<<20 + 1)
+	}
+	for i, fan := range fans {
+		for variant := 0; variant < 2; variant++ {
+			c.Case(int64(2*i+variant), func(k *K) {
+				r := k.Rand()
+				root := &newick.Node{}
+				parent := root
+				if variant == 1 { // the wide node below the root, between siblings, its children with children of their own
+					parent = &newick.Node{}
+					root.Children = []*newick.Node{{}, parent, {Children: []*newick.Node{{}}}}
+				}
+				for j := 0; j < fan; j++ {
+					ch := &newick.Node{}
+					if variant == 1 && r.IntN(40) == 0 {
+						ch.Children = []*newick.Node{{}, {}}
+					}
+					parent.Children = append(parent.Children, ch)
+				}
+				k.Input("fan_out", fan)
+				k.Input("variant", variant)
+				checkTraversals(k, root, true)
+				k.Count("wide_trees", 1)
+				k.Nontrivial([]byte(fmt.Sprint("wide", fan, variant)))
+			})
+		}
+	}
 }
